@@ -11,6 +11,7 @@ demands column 1 == column 2 and no panic."""
 import hashlib, itertools, os, random, subprocess, sys, shutil
 
 PROP = "C08"
+SUBCHECKS = ["C08G"]   # reader-side grand composition: any query history on the written file = the input (props/C08G.v)
 AREAS = []
 THEOREMS = ["history_independent", "table_queries_independent", "names_queries_any_state",
             "decoders_agree_when_sizes_ok", "never_panics", "unknown_sample_err", "unknown_contig_err",
